@@ -1085,7 +1085,11 @@ def _collection_to_cst(value: list | tuple | set | dict) -> cst.BaseExpression:
     if isinstance(value, set):
         if not value:
             return cst.Call(func=cst.Name("set"))
-        return cst.Set(elements=[cst.Element(value=literal_to_cst(v)) for v in value])
+        # The iteration order of a set of strings follows the interpreter's hash seed:
+        # render in an order that does not.
+        return cst.Set(
+            elements=[cst.Element(value=literal_to_cst(v)) for v in sorted(value, key=repr)]
+        )
     return cst.Dict(
         elements=[
             cst.DictElement(key=literal_to_cst(k), value=literal_to_cst(v))
